@@ -52,6 +52,7 @@ def run(pid, tier):
         import rejection
         rejection.collect_beta(o, pid, tier)
         rejection.collect_mt(o, pid, tier)
+        rejection.collect_cheng(o, pid, tier)
         w = [json.loads(x) for x in lines]
         same = sum(1 for e in w if e.get('wa') == e.get('wb'))
         o.extra['wire_events'] = len(w); o.extra['judged_same_word_count'] = same
@@ -62,6 +63,7 @@ def run(pid, tier):
         import rejection
         rejection.collect_mt(o, pid, tier)          # the Gamma kernel behind the gamma-normalisation path
         rejection.collect_beta(o, pid, tier)        # the Beta kernel (f32: exact law) behind the stick-breaking path
+        rejection.collect_cheng(o, pid, tier)       # and its f64 instantiation, pointwise
         o.extra['construction_matched'] = matched
         if not any(k.startswith('stick') for k in matched) or not any(k.startswith('gamma') for k in matched):
             raise ToolError('both constructions must be exercised: %s' % list(matched)[:4])
@@ -75,7 +77,7 @@ def run(pid, tier):
             '(tools/gen_quantile_table.py, 60 digits) whose order/median sanity TLC checks; f64 counts rest on monotonicity inside each half of the word range, checked on ~150 sorted words per half',
             'Beta<f32> (Cheng BB and BC, both parameter orders, both sides of min(a,b) = 1): the LAW is decided as an exact ticket count over the 2^24 x 2^24 lattice of proposal and acceptance word '
             '(output = function of the proposal word, acceptance region = prefix of the acceptance lattice, both checked by probes) against the regularised incomplete beta function at the anchors of '
-            'spec/BetaTable.tla (mpmath), slack 2^-20; Beta<f64> is NOT decided (2^53 proposal values cannot be enumerated)',
+            'spec/BetaTable.tla (mpmath), slack 2^-20; Beta<f64> is decided POINTWISE: at the anchors of spec/ChengTable.tla (14 parameter pairs, u1 = j/16) the value returned is the documented function of u1 and the accepting second words are a prefix of the documented relative length (2^-36)',
             'Gamma with shape >= 1 (Marsaglia-Tsang), f64 and f32, POINTWISE: at the anchors of spec/MtTable.tla (7 shapes x up to 10 normal deviates) the value returned is d (1 + c x)^3 and the accepting uniform words are a prefix of relative length '
             'min(1, exp(x^2/2 + d (1 - v + ln v))), the density ratio that makes the method exact (2^-32 / 2^-14); between the anchors NOT decided',
             'ONLY the composition layer is decided for the remaining families: ChiSquared, StudentT, FisherF, Pert, Exp, Gamma(shape <= 1), Normal(0,1), SkewNormal, InverseGaussian (plus its measured root-selection probability), NormalInverseGaussian are the documented functions of the crate\'s own primitives '
